@@ -792,8 +792,12 @@ func main() {
 	}
 	header := "From Coq Require Import List NArith ZArith.\nFrom Verif Require Import Common.Rose C21.Model.\nImport ListNotations.\nOpen Scope Z_scope.\n" +
 		"Definition env0 : list (N * tree) := " + vh.CoqList(envCoq, "(N * tree)") + "."
-	cw := vh.NewCases(a, header, "case", "mismatches", 70)
-	wd := vh.NewWatchdog(rep, 20*time.Second)
+	perShard := 70
+	if a.Thorough() {
+		perShard = 140
+	}
+	cw := vh.NewCases(a, header, "case", "mismatches", perShard)
+	wd := vh.NewWatchdog(rep, 120*time.Second) // generous: the shared machine reaches load 100+; a real hang is still reported
 
 	idx := 0
 	runCase := func(src, stream, knownKey string, strict bool) {
@@ -989,7 +993,7 @@ func main() {
 	// its generator has its own stream derived from the seed, so the random stream below is the same with and without it
 	maxD, perCombo := 3, 1
 	if a.Thorough() {
-		maxD, perCombo = 4, 4
+		maxD, perCombo = 4, 2
 	}
 	for _, c := range genChains(vh.NewRng(a.Seed*0x9E3779B1+0xC21), maxD, perCombo, true) {
 		before := idx
@@ -1000,7 +1004,9 @@ func main() {
 	}
 	n := 350
 	if a.Thorough() {
-		n = 12000
+		// 12000 + chains(4,4) = 13000 cases in 186 case files took > 35 min of coqc on the loaded machine;
+		// 10x the quick tier in files of 140 cases: ~31 files
+		n = 3500
 	}
 	if a.N > 0 {
 		n = a.N
